@@ -696,3 +696,114 @@ def rule_label5(ctx: Ctx) -> RuleResult:
            "): e.g. the key \"_1abc\" loses its underscore to the end and keeps the digit in front, which is no identifier"),
           f.node.lineno)
     return rr
+
+
+# ---------------------------------------------------------------------------------------------------------------
+def _prerender_steps(ctx: Ctx) -> List[FuncInfo]:
+    """Module functions of models/base.py that _generate_code calls before the rendering step, in call order (transitively
+    one level: helpers of helpers are included)."""
+    prog = ctx.prog
+    mod = prog.module(BASE)
+    entry = prog.func(BASE, "_generate_code")
+    out: List[FuncInfo] = []
+    calls = [n for n in walk_no_nested(entry.node) if isinstance(n, ast.Call) and isinstance(n.func, ast.Name) and n.func.id in mod.functions]
+    calls.sort(key=lambda n: (n.lineno, n.col_offset))
+    for c in calls:
+        g = mod.functions[c.func.id]
+        renders = any(isinstance(n, ast.Call) and isinstance(n.func, ast.Attribute) and n.func.attr == "generate" for n in walk_no_nested(g.node))
+        if renders:
+            break
+        out.append(g)
+    return out
+
+
+def rule_uniq3(ctx: Ctx) -> RuleResult:
+    rr = RuleResult("UNIQ-3", "colliding class names get their suffixes in an order both layouts share", floor=1)
+    steps = _prerender_steps(ctx)
+    ded = [g for g in steps if any(isinstance(n, ast.Call) and norm(n.func).endswith("set_raw_name") for n in ast.walk(g.node))]
+    rr.instances += 1
+    st = ("which of two models gets `Cafe` and which `Cafe_` does not depend on the layout: the renaming loop runs over the models "
+          "in an order taken from the registry (their indexes), not in the order the layout lists them")
+    if not ded:
+        rr.ob(BASE, "_generate_code", "class-name de-duplication", st, VIOLATED, "no de-duplication step before rendering (see UNIQ-2)", 1)
+        return rr
+    g = ded[0]
+    # the loop around the renaming call
+    ok = False
+    why = "the renaming loop iterates the generators as the layout lists them"
+    for lp in ast.walk(g.node):
+        if isinstance(lp, ast.For) and any(isinstance(n, ast.Call) and norm(n.func).endswith("set_raw_name") for n in ast.walk(lp)):
+            it = lp.iter
+            if isinstance(it, ast.Call) and norm(it.func) == "sorted" and any(k.arg == "key" and "index" in norm(k.value) for k in it.keywords):
+                ok = True
+            elif isinstance(it, ast.Name):
+                for d in ast.walk(g.node):
+                    if isinstance(d, ast.Assign) and norm(d.targets[0]) == it.id and isinstance(d.value, ast.Call) and \
+                            norm(d.value.func) == "sorted" and any(k.arg == "key" and "index" in norm(k.value) for k in d.value.keywords):
+                        ok = True
+                    if isinstance(d, ast.Call) and isinstance(d.func, ast.Attribute) and d.func.attr == "sort" and norm(d.func.value) == it.id \
+                            and any(k.arg == "key" and "index" in norm(k.value) for k in d.keywords):
+                        ok = True
+            if not ok:
+                why = f"the renaming loop runs over `{norm(it)[:50]}`: layout order (a merged parent stands after its children in the flat list and before them in the nested tree)"
+    rr.ob(g.relpath, g.qualname, g.name, st, DISCHARGED if ok else VIOLATED, "sorted by model index" if ok else why, g.node.lineno)
+    return rr
+
+
+def rule_uniq4(ctx: Ctx) -> RuleResult:
+    rr = RuleResult("UNIQ-4", "no field gets the name of a child model's class", floor=1)
+    steps = _prerender_steps(ctx)
+    rr.instances += 1
+    st = ("in the nested layout the class of a child model is defined in its parent's class body, next to the fields: before "
+          "anything is rendered, every generator is told the class names of its model's children so that no field label equals one")
+    hit = None
+    for g in steps:
+        for n in ast.walk(g.node):
+            if isinstance(n, ast.Call) and isinstance(n.func, ast.Attribute) and n.args and ".name" in norm(n.args[0]) and (
+                    "reserve" in n.func.attr or n.func.attr in ("setdefault", "add")):
+                # driven by the children of the generator's model
+                lp = None
+                for x in ast.walk(g.node):
+                    if isinstance(x, ast.For) and any(n is y for y in ast.walk(x)):
+                        lp = x
+                if lp is not None and ("child_pointers" in norm(lp.iter) or "nested" in norm(lp.iter)):
+                    hit = (g, n, "child_pointers" in norm(lp.iter))
+    if hit is None:
+        rr.ob(BASE, "_generate_code", "field labels vs child class names", st, VIOLATED,
+              "no step before rendering reserves the class names of child models among the field labels: a key that gives the same "
+              "label as field and as class (\"1\" -> one_) rebinds the nested class to the field's default", 1)
+    else:
+        g, n, both = hit
+        rr.ob(g.relpath, g.qualname, norm(n)[:70], st, DISCHARGED,
+              "reserved from the model graph (same labels in both layouts)" if both else "reserved for nested classes", n.lineno)
+    return rr
+
+
+def rule_uniq5(ctx: Ctx) -> RuleResult:
+    rr = RuleResult("UNIQ-5", "colliding field names get their suffixes in an order that does not depend on the samples", floor=1)
+    steps = _prerender_steps(ctx)
+    rr.instances += 1
+    st = ("which of two colliding keys keeps the plain label is decided by the keys themselves: the labels are handed out in sorted "
+          "key order before rendering, not in the order in which the samples happened to introduce the fields")
+    hit = None
+    for g in steps:
+        for lp in ast.walk(g.node):
+            if isinstance(lp, ast.For) and isinstance(lp.iter, ast.Call) and norm(lp.iter.func) == "sorted" and \
+                    ".type" in norm(lp.iter) and any(isinstance(n, ast.Call) and norm(n.func).endswith("convert_field_name") for n in ast.walk(lp)):
+                hit = (g, lp)
+    prog = ctx.prog
+    base = prog.cls(BASE, "GenericModelCodeGenerator")
+    init = prog.func(BASE, "GenericModelCodeGenerator.__init__")
+    conv = base.methods.get("convert_field_name", [None])[0]
+    dedups = conv is not None and _has_disambiguation(conv, init)[0]
+    if not dedups:
+        rr.ob(BASE, "GenericModelCodeGenerator.convert_field_name", "label order", st, DISCHARGED,
+              "labels are a function of the key alone here (UNIQ-1 judges that)", 1)
+    elif hit is None:
+        rr.ob(BASE, "_generate_code", "order of label assignment", st, VIOLATED,
+              "labels are first requested while the fields are rendered, i.e. in field order, which follows the order of the samples: "
+              "[{'a-b': 1}, {'ab': 'x'}] and the same samples swapped give the two fields each other's name", 1)
+    else:
+        g, lp = hit
+        rr.ob(g.relpath, g.qualname, norm(lp.iter)[:60], st, DISCHARGED, "labels handed out in sorted key order before rendering", lp.lineno)
+    return rr
